@@ -53,6 +53,25 @@ std::string compare(const iou::ReadResult& a, const iou::ReadResult& b, bool com
     return "";
 }
 
+std::string gz(const std::string& in) {
+    z_stream zs{};
+    deflateInit2(&zs, 6, Z_DEFLATED, 15 + 16, 8, Z_DEFAULT_STRATEGY);
+    std::string out(compressBound(in.size()) + 64, '\0');
+    zs.next_in = reinterpret_cast<Bytef*>(const_cast<char*>(in.data())); zs.avail_in = static_cast<uInt>(in.size());
+    zs.next_out = reinterpret_cast<Bytef*>(&out[0]); zs.avail_out = static_cast<uInt>(out.size());
+    deflate(&zs, Z_FINISH);
+    out.resize(zs.total_out);
+    deflateEnd(&zs);
+    return out;
+}
+std::string bz(const std::string& in) {
+    unsigned int n = static_cast<unsigned int>(in.size() + in.size() / 50 + 700);
+    std::string out(n, '\0');
+    BZ2_bzBuffToBuffCompress(&out[0], &n, const_cast<char*>(in.data()), static_cast<unsigned int>(in.size()), 9, 0, 0);
+    out.resize(n);
+    return out;
+}
+
 void case_fd(uint64_t idx, vh::Rng& rng) {
     struct F { const char* fmt; mdl::Charset cs; bool changesets; };
     static const F fmts[] = {{"osm", mdl::Charset::xml_safe, true}, {"osc", mdl::Charset::xml_safe, false}, {"pbf", mdl::Charset::any_utf8, false},
@@ -62,7 +81,8 @@ void case_fd(uint64_t idx, vh::Rng& rng) {
     const int comp = is_o5m ? 0 : static_cast<int>(rng.below(3));
     const std::string suffix = comp == 1 ? ".gz" : comp == 2 ? ".bz2" : "";
     const std::string path = g_dir + "/f";
-    std::string bytes;
+    std::string bytes, plain;
+    bool have_plain = false;
     std::string what;
     if (is_o5m) {
         // fixtures
@@ -83,16 +103,39 @@ void case_fd(uint64_t idx, vh::Rng& rng) {
         if (rng.coin()) { go.max_string = 30; }
         const std::vector<mdl::Obj> D = mdl::gen_dataset(rng, go, rng.pick(std::vector<size_t>{1, 5, 60, 600}));
         const mdl::Header H = mdl::gen_header(rng, f.cs);
-        {
-            osmium::io::File file{path, std::string(f.fmt) + suffix + (rng.coin() ? ",pbf_compression=none" : "")};
+        const std::string popt = rng.coin() ? ",pbf_compression=none" : "";
+        auto write = [&](const std::string& sfx) {
+            osmium::io::File file{path, std::string(f.fmt) + sfx + popt};
             osmium::io::Writer writer{file, iou::model_to_header(H), osmium::io::overwrite::allow, *g_pool};
             osmium::memory::Buffer buf{64 * 1024, osmium::memory::Buffer::auto_grow::yes};
             for (const auto& o : D) mdl::to_buffer(o, buf);
             writer(std::move(buf));
             writer.close();
-        }
-        bytes = iou::slurp(path);
+            return iou::slurp(path);
+        };
         what = vh::fmt("%zu objects as %s%s", D.size(), f.fmt, suffix.c_str());
+        if (comp != 0 && rng.coin()) {
+            // The same byte stream as several gzip members / bzip2 streams, also empty ones (first,
+            // in the middle, last): the decompressor then hands the parser pieces that end at the
+            // member boundaries (and possibly empty pieces). Oracle below: the uncompressed bytes.
+            plain = write("");
+            const size_t nmembers = 2 + rng.below(4);
+            std::vector<size_t> cuts{0, plain.size()};
+            for (size_t k = 1; k < nmembers; ++k) cuts.push_back(rng.chance(1, 3) ? rng.pick(cuts) : rng.below(plain.size() + 1));
+            std::sort(cuts.begin(), cuts.end());
+            size_t empties = 0;
+            for (size_t k = 0; k + 1 < cuts.size(); ++k) {
+                const std::string piece = plain.substr(cuts[k], cuts[k + 1] - cuts[k]);
+                if (piece.empty()) ++empties;
+                bytes += comp == 1 ? gz(piece) : bz(piece);
+            }
+            have_plain = true;
+            what += vh::fmt(" in %zu members (%zu empty)", cuts.size() - 1, empties);
+            vh::count("multi_member_files");
+            if (empties) vh::count("multi_member_files_with_empty_members");
+        } else {
+            bytes = write(suffix);
+        }
     }
     // truncation only for uncompressed files (error texts of the fd and buffer decompressors differ by design)
     bool truncated = false;
@@ -104,6 +147,15 @@ void case_fd(uint64_t idx, vh::Rng& rng) {
     g_short_limit = 0;
     iou::ReadResult a;
     { osmium::io::File mf{bytes.data(), bytes.size(), fmt}; a = iou::read_all(mf, osmium::osm_entity_bits::all, *g_pool); }
+    if (have_plain) {
+        // multi-member file: the buffer decompressor's run is judged against the uncompressed bytes
+        iou::ReadResult p;
+        { osmium::io::File pf{plain.data(), plain.size(), f.fmt}; p = iou::read_all(pf, osmium::osm_entity_bits::all, *g_pool); }
+        std::string detail;
+        const std::string d = compare(p, a, false, &detail);
+        if (!d.empty()) vh::violation(std::string(f.fmt) + (comp == 1 ? " (gzip buffer, several members)" : " (bzip2 buffer, several streams)") + ": " + d, what + ": " + detail);
+        vh::count("multi_member_buffer_runs");
+    }
     // The memory path and the fd path are different code paths with their own
     // error texts (e.g. PBF "truncated data" vs "unexpected EOF"): across the
     // two paths only success/failure, the error type and the data are compared.
